@@ -144,6 +144,7 @@ def compare_case(q, a, m, stats):
 
 
 PWNAMES = set()
+NOTES = []
 PWUNTITLED = set()
 PW_TITLE_INIT = False
 
@@ -289,7 +290,9 @@ def parse_oracle(out, err):
     files, f, lastb = [], None, None
     for line in out.splitlines():
         tag = line[:2]
-        if tag == "F ":
+        if tag == "N ":
+            NOTES.append(line[2:])
+        elif tag == "F ":
             f = {"file": line[2:], "R": [], "T": [], "V": [], "P": [], "X": None}
             lastb = None
         elif f is None:
@@ -468,6 +471,8 @@ def oracle(ck, scratch):
                 raise vlib.InfraError("c11_agree (msan) failed (rc=%d): %s" % (rc, err[-2000:]))
             judge_files(ck, parse_oracle(out, err), "c11_agree(msan)", stats, msan=True)
         ck.note("msan_files", len(mfiles))
+    if NOTES:
+        ck.note("oracle_notes", sorted(set(NOTES))[:5])
     fm = stats.pop("formats")
     stats["formats_recognised"] = len(fm)
     for k, v in stats.items():
